@@ -30,3 +30,7 @@ func stepsAvailable() bool { return true }
 func resetSteps()          { stepCount = 0; budgetHit = false }
 func steps() int64         { return stepCount }
 func stepBudgetHit() bool  { return budgetHit }
+
+func setYieldHook(f func(string)) bool { formula.VerifYieldHook = f; return true }
+func globalsDump() string               { return formula.VerifGlobals() }
+func disableStepHook() { formula.VerifStepHook = nil }
